@@ -46,13 +46,33 @@ def run(ctx):
             ctx.guarded(rule, 'evaluate' + sfx, lambda: fn(ctx, F, rule, sfx))
 
 
+class DimensionDependentGrid(AnalysisIncomplete):
+    pass
+
+
 def iloc_form(ctx, F):
     """Evaluate iloc on a symbolic boundary: per component (rescaled coordinate RF, mask int)."""
     b = F.body_by_suffix('SimulationBoundary::iloc')
-    ip = I.Interp(F)
-    bd = I.St('voronoi::boundary::SimulationBoundary', 'SimulationBoundary', {'anchor': I.sym_vec3('a'), 'inverse_width': I.sym_vec3('iw')})
-    v, _ = ip.call_body(b, [ip.ref_to(bd), I.sym_vec3('x')])
-    ctx.evaluations += ip.evaluations
+    # the map must not depend on the dimensionality: mirror images through the walls of the UNUSED axes (z = +-1 for a generator at z = 0) are
+    # queried in 1D/2D as well, so every component is converted in every mode.  Evaluated once per mode; the three results must be the same.
+    per_dim = {}
+    a_adt = F.adt('voronoi::boundary::SimulationBoundary', required=False)
+    has_dim = a_adt is not None and any(f['name'] == 'dimensionality' for f in a_adt['variants'][0]['fields'])
+    for dim in (('OneD', 'TwoD', 'ThreeD') if has_dim else (None,)):
+        ip = I.Interp(F)
+        ip.unroll_limit = 4
+        fields = {'anchor': I.sym_vec3('a'), 'inverse_width': I.sym_vec3('iw')}
+        if dim is not None:
+            fields['dimensionality'] = I.St('voronoi::Dimensionality', dim, {})
+        bd = I.St('voronoi::boundary::SimulationBoundary', 'SimulationBoundary', fields, I.Sym(nf.sym_atom('boundary'), 'voronoi::boundary::SimulationBoundary'))
+        vv, _ = ip.call_body(b, [ip.ref_to(bd), I.sym_vec3('x')])
+        ctx.evaluations += ip.evaluations
+        per_dim[dim] = vv
+    keys = {d: I.vkey(I.frozen(x)) for d, x in per_dim.items()}
+    if len(set(keys.values())) != 1:
+        diff = [d for d in per_dim if keys[d] != keys.get('ThreeD')]
+        raise DimensionDependentGrid('the integer grid map differs between dimensionalities (%s differ from ThreeD): e.g. %s' % (diff, repr(I.frozen(per_dim[diff[0]]))[:120]))
+    v = per_dim.get('ThreeD', per_dim.get(None))
     out = []
     for c in range(3):
         e = as_rf(I.get_index(v, RF.const(c), 'i64'))
@@ -75,7 +95,12 @@ def iloc_form(ctx, F):
 
 
 def r5(ctx, F, rule, sfx):
-    b, comps = iloc_form(ctx, F)
+    try:
+        b, comps = iloc_form(ctx, F)
+    except DimensionDependentGrid as e:
+        ib = F.body_by_suffix('SimulationBoundary::iloc')
+        ctx.bad(rule, 'grid-map-independent-of-dimensionality' + sfx, str(e)[:260], 'all three components converted in 1D, 2D and 3D alike (wall mirror images leave the active subspace)', where(ib), key_extra='dimdep')
+        return
     w = where(b)
     for c, (u, mask) in enumerate(comps):
         a, iw, x = RF.sym('a.' + AX[c]), RF.sym('iw.' + AX[c]), RF.sym('x.' + AX[c])
